@@ -17,9 +17,9 @@ RULE = ("Hypothesis treebank pools: 1..6 trees drawn with replacement from a poo
 ASSUMPTIONS = ["reference extractor in vlib/lcfrs.py works on token sets of the model only"]
 
 
-def treebank(max_tokens, max_trees=6, words=("a", "b", "c", "Haus")):
-    tree = S.tree_model(max_tokens=max_tokens, disc=0.6, labels=st.sampled_from(["S", "NP", "VP", "X"]),
-                        pos=st.sampled_from(["NN", "VB", "ART"]), words=st.sampled_from(list(words)), max_arity=4)
+def treebank(max_tokens, max_trees=6, words=("a", "b", "c", "Haus"), labels=("S", "NP", "VP", "X"), pos=("NN", "VB", "ART")):
+    tree = S.tree_model(max_tokens=max_tokens, disc=0.6, labels=st.sampled_from(list(labels)),
+                        pos=st.sampled_from(list(pos)), words=st.sampled_from(list(words)), max_arity=4)
 
     @st.composite
     def build(draw):
@@ -129,7 +129,8 @@ def gen(ctx):
         if max_count > 1 and max_fan > 1:
             ctx.sample([c["root"] for c in cases], cap=1)
     # words that look like syntax of the file formats are words, too (built through the API here, no file involved)
-    ctx.hyp(treebank(8 if quick else 12, words=("a", "b", "c", "Haus", "#500", "#123", "#1", "--", "#BOS")), body, max_examples=700 if quick else 4000)
+    ctx.hyp(treebank(8 if quick else 12, words=("a", "b", "c", "Haus", "#500", "#123", "#1", "--", "#BOS"), labels=("S", "NP", "VP", "X", "VROOT"),
+                     pos=("NN", "VB", "ART", "$(", "-LRB-")), body, max_examples=700 if quick else 4000)
 
 
 UNITS = [Unit("extract", gen, check, shards=(4, 16))]
